@@ -18,7 +18,14 @@ for l in out.splitlines():
     if l.startswith('??') and l.strip().endswith('_test.go'):
         f = l[3:].strip()
         shutil.copy(os.path.join(wt, f), os.path.join(dst, os.path.basename(f) + '.txt'))
-log = open('/tmp/seed/confirm-%s.log' % name).read().strip().splitlines()[-1] if os.path.exists('/tmp/seed/confirm-%s.log' % name) else ''
+log = ''
+for cand in (name, os.path.basename(wt.rstrip('/'))):
+    p = '/tmp/seed/confirm-%s.log' % cand
+    if os.path.exists(p):
+        ls = [l for l in open(p).read().splitlines() if l.startswith('seed=')]
+        if ls:
+            log = ls[-1]
+            break
 meta = {
  'property': prop,
  'summary': summary,
